@@ -14,6 +14,11 @@ IsPermutation(perm, n) == /\ Len(perm) = n
                           /\ \A k \in 1..n : perm[k] \in 0..(n - 1)
                           /\ \A k, m \in 1..n : k # m => perm[k] # perm[m]
 
+\* the same predicate in O(n log n) for recorded orderings of graphs with thousands of nodes
+IsPermutationFast(perm, n) == /\ Len(perm) = n
+                              /\ \A k \in 1..n : perm[k] \in 0..(n - 1)
+                              /\ Cardinality({perm[k] : k \in 1..n}) = n
+
 \* st = [perm (0-based function), ls (levelSet), nsd (nextSameDegree), next,
 \*       nf (nFirstWithDegree), nM (nMDICLS), empty]
 CMVisitRow(A, deg, st, node, cls) ==
